@@ -68,9 +68,24 @@ Inductive txdata :=
 
 Record fdesc := { fd_name : fname; fd_cont : cont_kind; fd_parser : parser_kind }.
 
-Definition range_size_lt (l r : Z) (thr : Z) : bool := (r - l) <? thr.
-(* float64(right) - float64(left) < RangeCvtValuesSize : exact on the modelled domain (|bounds| <= 2^62
-   differ from the real-number difference by rounding only far above the threshold) *)
+(* float64(x) for an int64 x, as the integer it denotes: round to nearest, ties to even, 53-bit mantissa *)
+Definition f64_of_Z (z : Z) : Z :=
+  let a := Z.abs z in
+  if a <? 9007199254740992 then z else
+  let e := Z.log2 a - 52 in
+  let p := 2 ^ e in
+  let q := a / p in
+  let rem := a mod p in
+  let half := 2 ^ (e - 1) in
+  let q' := if half <? rem then q + 1 else if rem =? half then (if Z.even q then q else q + 1) else q in
+  Z.sgn z * (q' * p).
+
+(* float64(right) - float64(left) < RangeCvtValuesSize, as Range.Size() computes it: near 2^62 the spacing of
+   float64 is 512, so a range wider than the threshold can still be expanded (e.g. width 271 measured as 0)
+   and a narrower one kept; either way the expression selects the same values (RangeHolderProof.range_tx_exact).
+   The float subtraction of the two rounded bounds is exact whenever the result is below 2^53, and rounding is
+   monotone, so comparing the exact integer difference with the threshold gives the same verdict. *)
+Definition range_size_lt (l r : Z) (thr : Z) : bool := (f64_of_Z r - f64_of_Z l) <? thr.
 
 Fixpoint z_range (fuel : nat) (l : Z) : list Z :=
   match fuel with O => [] | S f => l :: z_range f (l + 1) end.
